@@ -263,3 +263,32 @@ def same_names_other_program_cases():
             out.append("ALG %s 1 PROGS %s NF sp:%s:%s OR %s SCRIPT 5:RD.1 5:CR.1.10.1460.1.2.3.4.%s 5:MS.1.u:%s.1 X"
                        % (hx("reno"), progs, o[0], ul, orr2, hx("reno"), o[0]))
     return out
+
+
+def own_scope_cases(rng, n=40):
+    """get_field through a scope the flow obtained by compiling the program text ITSELF (lang::compile, the documented way), with and
+    without compile-time overrides of report / control / unknown names; the scripted datapath reports under that scope's uid"""
+    pa = "(def (Report (volatile acked 0) (rtt 5)) (thresh 64) (volatile vc 7)) (when true (:= Report.acked (+ Report.acked thresh)) (report))"
+    pb = "(def (Report (loss 0)) (gain 2) (Report.legacy 9)) (when true (:= Report.loss gain) (report))"
+    progs = "pa=%s,pb=%s" % (hx(pa), hx(pb))
+    names = {"pa": ["Report.acked", "Report.rtt", "thresh", "vc", "Cwnd", "nope", "acked", "Report.loss"],
+             "pb": ["Report.loss", "Report.legacy", "gain", "legacy", "Rate", "nope", "Report.acked"]}
+    ovs = {"pa": ["-", "%s=7" % hx("thresh"), "%s=3" % hx("Report.rtt"), "%s=9;%s=1" % (hx("vc"), hx("thresh")), "%s=1" % hx("nope"),
+                  "%s=4;%s=2" % (hx("Report.acked"), hx("vc")), "%s=5" % hx("Cwnd")],
+           "pb": ["-", "%s=7" % hx("gain"), "%s=1" % hx("Report.legacy"), "%s=8;%s=3" % (hx("Report.loss"), hx("gain")), "%s=1" % hx("legacy")]}
+    nvals = {"pa": 2, "pb": 2}
+    out = []
+    for q in ("pa", "pb"):
+        for ov in ovs[q]:
+            for k in range(max(1, n // 12)):
+                o = "pb" if q == "pa" else "pa"
+                gets = ",".join("gfp:%s_c:%s" % (q, hx(f)) for f in rng.sample(names[q], 5)) + ",gfp:%s:%s,gf:%s" % (q, hx(names[q][0]), hx(names[q][2]))
+                nf = "sp:%s:-,cu:%s:%s" % (rng.choice([q, o]), q, ov)
+                vals = lambda m: ";".join(str(rng.choice([0, 1, 7111, 2**63, 2**64 - 1])) for _ in range(m)) or "-"
+                script = ["5:RD.1", "5:CR.1.10.1460.1.2.3.4.%s" % hx("reno"),
+                          "5:MS.1.u:%s_c.%s" % (q, vals(nvals[q])),              # under the flow's own scope's uid
+                          "5:MS.1.u:%s.%s" % (q, vals(nvals[q])),                # under the runtime's uid of the same program: stale for _c
+                          "5:MS.1.u:%s_c.%s" % (q, vals(rng.choice([0, 1, 3]))),  # short / long reports
+                          "5:MS.1.u:%s_c.%s" % (o, vals(2)), "X"]                # never compiled by the flow: uid unknown -> 0
+                out.append("ALG %s 1 PROGS %s NF %s OR %s SCRIPT %s" % (hx("reno"), progs, nf, gets, " ".join(script)))
+    return out
